@@ -1482,8 +1482,9 @@ func (c *k12Case) autocommit(s *k12Sess, st *k12Stmt) {
 		r.Corr(fmt.Sprintf("c12 ddl auto %d %s fail", k12Auto+s.id, kind), hm+" fail")
 		r.Count("ddl.auto.err." + d13Class(res.Err))
 		if rt := c.ref.T[st.T]; out.err == "" && st.K == "drop-table" && rt != nil && rt.Check != nil && res.Err == "key-not-found" {
-			// DropTableStmt deletes the CHECK entry under another key than the one CREATE TABLE persisted
-			r.Count("ddl.known.drop-table-with-check")
+			// R19, repaired (known_findings.json → fixed): DropTableStmt deleted the CHECK entry under another key than the one CREATE TABLE
+			// persisted. The reference expects DROP TABLE to succeed; the exact symptom keeps its signature
+			r.Count("ddl.regressed.drop-table-with-check")
 			c.fail("C12:stmt:spurious-failure:key-not-found:drop-table-with-check-constraint", fmt.Sprintf("%s: [%s] fails with %s: the table declares a CHECK constraint {%s}", where, q, res.Err, rt.catalogLine()))
 			c.verify(after + " (which failed)")
 			return
@@ -2006,6 +2007,54 @@ func (c *k12Case) probeSetNotNull() {
 	}
 }
 
+// R19 (repaired): DROP TABLE of a table that declares a CHECK constraint, re-creation under the same name with another bound or without
+// CHECK, and rows aimed between the old and the new bound — every statement through the judged autocommit path (reference verdict, then
+// a fresh engine over the store: the persisted catalog must be the reference's, so no constraint entry of the dropped table may be
+// loaded for the new one, and every declared constraint holds over the rows).
+func (c *k12Case) probeDropTableWithCheck() {
+	s := c.sess[0]
+	var t *k12Table
+	for _, n := range c.ref.names() {
+		if c.ref.T[n].Check != nil {
+			t = c.ref.T[n]
+			break
+		}
+	}
+	if t == nil {
+		st := &k12Stmt{K: "create-table", T: c.freshName("t"), Cols: []k12Col{{Name: "id", Ty: "INTEGER"}, {Name: c.freshName("c"), Ty: "INTEGER", NotNull: true}},
+			Check: &k12Check{Col: 1, Min: []int64{1, 3}[c.rng.Intn(2)]}}
+		c.autocommit(s, st)
+		if t = c.ref.T[st.T]; c.dead || t == nil {
+			return
+		}
+	}
+	name, oldMin := t.Name, t.Check.Min
+	c.r.Count("ddl.probe.drop-table-with-check")
+	c.autocommit(s, &k12Stmt{K: "drop-table", T: name})
+	if c.dead || c.ref.T[name] != nil {
+		return
+	}
+	st := &k12Stmt{K: "create-table", T: name, Cols: []k12Col{{Name: "id", Ty: "INTEGER"}, {Name: c.freshName("c"), Ty: "INTEGER", NotNull: true}}}
+	newMin, probe := int64(0), oldMin-1 // a value the old constraint refuses and the new table accepts
+	if oldMin == 0 {
+		newMin, probe = 5, 2 // … the old constraint accepts and the new one refuses
+	}
+	if c.rng.Intn(3) > 0 {
+		st.Check = &k12Check{Col: 1, Min: newMin}
+		c.r.Count("ddl.probe.drop-table-with-check.recreated-with-check")
+	} else {
+		c.r.Count("ddl.probe.drop-table-with-check.recreated-without-check")
+	}
+	c.autocommit(s, st)
+	for _, v := range []int64{probe, newMin + 7} {
+		if c.dead || c.ref.T[name] == nil {
+			return
+		}
+		c.nextID++
+		c.autocommit(s, &k12Stmt{K: "insert", T: name, ID: c.nextID, Names: []string{st.Cols[1].Name}, Vals: []k12Val{{i: v}}, Bias: "old-or-new-check-bound"})
+	}
+}
+
 func (c *k12Case) run(thorough bool) {
 	r, rng := c.r, c.rng
 	r.NextCase()
@@ -2066,6 +2115,9 @@ func (c *k12Case) run(thorough bool) {
 		}
 		c.verify("after all sessions were closed")
 	}
+	if !c.dead && rng.Intn(2) == 0 {
+		c.probeDropTableWithCheck()
+	}
 	if !c.dead && rng.Intn(3) == 0 {
 		c.probeSetNotNull()
 	}
@@ -2096,7 +2148,7 @@ func runC12DDL(r *hx.Result, rng *hx.Rng, thorough bool) error {
 	}
 	for _, k := range []string{"ddl.begin.empty.miss", "ddl.begin.reader.miss", "ddl.begin.writer.hit", "ddl.commit.empty", "ddl.commit.reader", "ddl.commit.noop", "ddl.commit.writer", "ddl.commit.ddl", "ddl.reopen",
 		"ddl.auto.create-table", "ddl.auto.create-index", "ddl.auto.add-column", "ddl.auto.drop-index", "ddl.auto.insert", "ddl.must-fail.rejected.dup-key", "ddl.must-fail.rejected.not-null",
-		"ddl.must-fail.rejected.limited-index-creation", "ddl.bias.dup-unique", "ddl.episode"} {
+		"ddl.must-fail.rejected.limited-index-creation", "ddl.bias.dup-unique", "ddl.episode", "ddl.probe.drop-table-with-check"} {
 		if r.Distribution[k] == 0 {
 			r.Inconclusive = append(r.Inconclusive, "generator never produced class "+k)
 		}
